@@ -117,7 +117,7 @@ def run_search_family(prop, tier, props_arg, level="model_checking", families=No
         stage_results += [r[1] for r in allres if r[0] == "stage"]
         machinery = []
         states = trans = 0
-        agg = {"patterns": 0, "cases": 0, "calls": 0, "nontrivial": 0, "spec_gaps": 0, "by_strategy": {}, "fail_by_strategy": {}}
+        agg = {"patterns": 0, "cases": 0, "calls": 0, "nontrivial": 0, "spec_gaps": 0, "by_strategy": {}, "fail_by_strategy": {}, "by_api": {}}
         samples, gaps, fail_paths, fams = [], [], [], {}
         tlc_wall = 0.0
         for fam, consts, r, rp, fp in results:
@@ -133,8 +133,10 @@ def run_search_family(prop, tier, props_arg, level="model_checking", families=No
             rep = vlib.read_report(rp)
             for k in ("patterns", "cases", "calls", "nontrivial", "spec_gaps"):
                 agg[k] += rep.get(k, 0)
-            for k in ("by_strategy", "fail_by_strategy"):
+            for k in ("by_strategy", "fail_by_strategy", "by_api"):
                 for a, b in (rep.get(k) or {}).items():
+                    if k == "by_api" and ":" not in a:
+                        continue        # only the counters of model-conformance drivers ("revsuffix:...", "onepass:...")
                     agg[k][a] = agg[k].get(a, 0) + b
             fams[fam] = fams.get(fam, 0) + rep.get("patterns", 0)
             samples += (rep.get("samples") or [])[:2]
@@ -170,6 +172,7 @@ def run_search_family(prop, tier, props_arg, level="model_checking", families=No
             "patterns": agg["patterns"], "pattern_haystack_pairs": agg["cases"], "spec_gaps": agg["spec_gaps"],
             "spec_gap_samples": gaps[:10], "patterns_by_strategy": agg["by_strategy"], "failing_calls_by_strategy": agg["fail_by_strategy"],
             "patterns_by_family": fams, "failing_calls_total": total, "tlc_wall_s": round(tlc_wall, 1),
+            "model_conformance_counters": agg["by_api"],
             "exhaustive": not machinery,
             "tlc_generator_outputs_reused": sum(1 for x in results if getattr(x[2], "cached", False)),
             "tlc_generator_note": "generator output (a function of spec/ and the constants only) is kept in out/tlccache and shared between "
@@ -567,8 +570,27 @@ def c09(prop, tier):
                                           "TLC evaluates QuoteMeta / NCaps / Names correctly"])
 
 
+def revsuffix_jobs(tier):
+    """MC_ReverseSuffix generator jobs: the model of the reverse-suffix DRIVER (spec/ReverseSuffix.tla) evaluated on the family where
+    it is claimed exact (RSW) and on the wider family meta.isSafeForReverseSuffix admits (RSG); `revsuffix` compares the engine
+    with the reference (verdict) and the real searcher with the model (conformance, counted)."""
+    base = {"Shard": 0, "NShards": 1, "Claim": False, "Variant": "code"}
+    return [("RSW", dict(base, Family="RSW", Budget=400, LCap=5), "MC_ReverseSuffix", "revsuffix"),
+            ("RSG", dict(base, Family="RSG", Budget=1400, LCap=5), "MC_ReverseSuffix", "revsuffix")]
+
+
+def revsuffix_stages(tier):
+    cfg = "SPECIFICATION Spec\nINVARIANT Exact\n"
+    base = {"Family": "RSW", "Shard": 0, "NShards": 1, "Budget": 160, "LCap": 5, "Claim": True}
+    # theorem: wildcard + literal, nothing else - the driver is exact.  Negative controls: two repaired defects of the driver.
+    return [tlc_model_stage("ReverseSuffix_exact_on_RSW", "MC_ReverseSuffix", dict(base, Variant="code"), cfg, workers=4),
+            tlc_model_stage("ReverseSuffix_norescan_control", "MC_ReverseSuffix", dict(base, Variant="norescan"), cfg, workers=2, expect_violation=True),
+            tlc_model_stage("ReverseSuffix_lastcand_control", "MC_ReverseSuffix", dict(base, Variant="lastcand"), cfg, workers=2, expect_violation=True)]
+
+
 def c19(prop, tier):
     return run_search_family(prop, tier, prop, subcmd="fastpaths", with_at=True, budget_scale=0.6 if tier == "quick" else 0.7,
+                             extra_jobs=revsuffix_jobs(tier), stages=revsuffix_stages(tier),
                              families=["REV", "ANC", "ANC2", "CC", "DIG", "LIT", "G2a", "G2m", "U8", "G2u", "TRI", "G1", "BIG"],
                              rule="TLC enumerates the families designed around the strategy selector (REV, ANC, CC, DIG, LIT) and generic shards, "
                                   "x haystacks x every start offset; patterns whose selected strategy is a special-purpose searcher are checked end to end "
